@@ -15,8 +15,13 @@ claimed = {
   "C01": ("4 C01", "WGSL binary operator -> SPIR-V opcode table of emitBinary proved against the SPIR-V instruction semantics for every (operator, scalar kind) on all eleven AddBinaryOp sites; opcode constants proved equal to the SPIR-V specification's numbers"),
   "C10": ("4 C10", "no run-time panic and termination proved for the whole WGSL lexer (every source string), the DXIL bit writer, the DXBC container serialiser and ir.TypeSize"),
   "C11": ("4 C11", "token positions: every token of every source string has line/column of its first character, column >= 1 (lexer position accounting proved)"),
+  "C15": ("4 C15", "MSL bounds-check decision functions: an access is left unclamped only for a literal index below the static length; the clamp bound is length-1 of a non-empty object; policy selection per address space"),
+  "C16": ("4 C16", "reserved-word tables of the three text back ends contain the languages' keywords (lists from the language specifications) and no entry is the escaped spelling of another entry"),
   "C17": ("4 C17", "WGSL builtin -> SPIR-V BuiltIn and address space -> StorageClass tables proved against the SPIR-V specification's enumerant values; enumerant constants checked"),
   "C02": ("4 C02", "SPIR-V physical layout proved for every module: instruction encoding (word count, operands, little-endian), header words (magic, generator, bound = next unused id, schema), sections written in the mandated order each starting where the previous ended, buffer length = header + all sections; ID allocator returns fresh ids; opcode numbers equal the specification's"),
+  "C03": ("4 C03", "HLSL operator/type/cast spellings and the byte-address step of every storage access (struct member offset, index*stride for arrays, vectors, matrix columns) proved; statement reference counting visits every nested block"),
+  "C04": ("4 C04", "MSL reference counting and call walking descend into every nested block of every statement kind (type-derived obligations); bounds-check decisions see C15"),
+  "C05": ("4 C05", "GLSL per-entry-point reachability: every type/constant/global handle an expression kind carries is marked, statement walkers descend into every nested block (type-derived obligations)"),
   "C06": ("4 C06", "f32<->f16 conversion kernels (float32ToHalf, halfToFloat32, roundToF16, DXIL float32ToF16Bits) proved bit-exact against SMT FloatingPoint round-to-nearest-even for all 2^32 inputs"),
   "C07": ("4 C07", "ir.TypeSize / typeInnerSize / vectorAlignment proved equal to the WGSL SizeOf/AlignOf rules for every type shape"),
   "C09": ("4 C09", "compaction's per-expression mark and remap functions proved to visit/remap every handle field of every expression kind (obligations derived from the Go type declarations)"),
